@@ -17,7 +17,8 @@ buffering, so it sees exactly the low-level sequence
   (a) materialise the directory image after any event prefix plus any byte-prefix of the next
       write: `materialize(initial, events, k, nbytes, dest)`;
   (b) raise OSError at the k-th mutating raw operation: `rec.fail_at = k` (1-based; optionally
-      `rec.fail_partial = n` to let a failing write put n bytes first);
+      `rec.fail_partial = n`: that write is a SHORT write of n bytes and the next mutating raw
+      operation fails, as an OS would do it);
   (c) refuse any mutation: `rec.readonly_guard = True` (records ('VIOLATED-RO', …) and raises);
   (d) call `rec.on_event(ev)` before each operation (used by sched.vfs_hook for yield points).
 Active only inside the harness process (guard ZODB_VERIF=1).
@@ -78,7 +79,11 @@ class Recorder:
             if self.fail_at is not None and self.nmut == self.fail_at:
                 self.events.append(('fault', self.nmut) + ev[:2])
                 if ev[0] == 'write' and self.fail_partial:
-                    return self.fail_partial          # caller writes that many bytes, then raises
+                    # realistic short write: this raw write returns a short count, the NEXT
+                    # mutating raw operation (the buffer layer's retry of the rest) fails
+                    self.fail_at = self.nmut + 1
+                    n, self.fail_partial = self.fail_partial, 0
+                    return n
                 raise OSError(self.fail_errno, 'vfs injected fault at op %d' % self.nmut)
         return 0
 
@@ -108,9 +113,9 @@ class RecFileIO(io.FileIO):
         off = os.fstat(self.fileno()).st_size if self._append else self.tell()
         part = self._rec.before(('write', self._rel, off, b))
         if part:
-            io.FileIO.write(self, b[:part])
-            self._rec.record(('write', self._rel, off, b[:part]))
-            raise OSError(self._rec.fail_errno, 'vfs injected fault (partial write)')
+            n = io.FileIO.write(self, b[:part]) or 0
+            self._rec.record(('write', self._rel, off, b[:n]))
+            return n
         n = io.FileIO.write(self, b)
         if n is None:
             n = 0
